@@ -44,6 +44,7 @@ func Steady() {
 	ik0 := rec.Key.ParentKeyMeta.Created
 	ikc := ik0
 	skc := e.Store.Row(env.IKID("p0"), ikc).ParentKeyMeta.Created
+	sk0 := skc
 	for i := 0; i < N; i++ {
 		ts, tn := tick()
 		m0, k0 := e.Store.Calls(), e.KMS.Encs+e.KMS.Decs
@@ -72,7 +73,10 @@ func Steady() {
 		} else {
 			vx.Assert("C20.no_external_calls_within_interval", vx.Implies(within, dm == 0 && dk == 0))
 			// ... and only for one interval: the first use after it re-reads the key's record before using the key
-			vx.Assert("C20.key_record_re_read_after_interval", vx.Implies(vx.Not(within), dm >= 1))
+			// (a key already known to be unusable for new data - revoked, or under an expired system key - has
+			// nothing left to learn from a re-read, so the obligation is stated for keys whose chain is still valid)
+			chainValid := vx.TimeLE(ts, tn, sk0+E, 0)
+			vx.Assert("C20.key_record_re_read_after_interval", vx.Implies(vx.And(vx.Not(within), chainValid), dm >= 1))
 			if dm > 0 {
 				vx.Reach("C20.reloaded_after_interval")
 				// the re-read refreshes that key's entry: its next interval starts now
